@@ -394,6 +394,12 @@ fn write_data_to_stream<F: Read + Write + Seek>(
     })
 }
 
+/// Writes `count` zero bytes at the current position of `writer`.
+fn write_zeros<W: Write>(writer: &mut W, count: u64) -> io::Result<()> {
+    io::copy(&mut io::repeat(0).take(count), writer)?;
+    Ok(())
+}
+
 /// If `new_stream_len` is less than the stream's current length, then the
 /// stream will be truncated.  If it is greater than the stream's current size,
 /// then the stream will be padded with zero bytes.
@@ -416,6 +422,8 @@ fn resize_stream<F: Read + Write + Seek>(
             // into a new mini chain.
             let mut chain = minialloc.open_mini_chain(consts::END_OF_CHAIN)?;
             chain.set_len(new_stream_len)?;
+            // Mini sectors are not cleared when they are (re)allocated.
+            write_zeros(&mut chain, new_stream_len)?;
             chain.start_sector_id()
         } else {
             // Case 1b: The new length is large enough that it should be placed
@@ -438,6 +446,12 @@ fn resize_stream<F: Read + Write + Seek>(
             let mut chain = minialloc.open_mini_chain(old_start_sector)?;
             chain.set_len(new_stream_len)?;
             debug_assert_eq!(chain.start_sector_id(), old_start_sector);
+            if new_stream_len > old_stream_len {
+                // Neither the rest of the old final mini sector nor any
+                // (re)allocated mini sectors have been cleared.
+                chain.seek(SeekFrom::Start(old_stream_len))?;
+                write_zeros(&mut chain, new_stream_len - old_stream_len)?;
+            }
             old_start_sector
         } else {
             // Case 2c: The new length is too large to fit in a mini chain.
@@ -479,6 +493,18 @@ fn resize_stream<F: Read + Write + Seek>(
                 minialloc.open_chain(old_start_sector, SectorInit::Zero)?;
             chain.set_len(new_stream_len)?;
             debug_assert_eq!(chain.start_sector_id(), old_start_sector);
+            if new_stream_len > old_stream_len {
+                // Newly allocated sectors are zeroed, but the rest of the old
+                // final sector may hold data from before an earlier shrink.
+                let sector_len = minialloc.sector_len() as u64;
+                let stale = (sector_len - old_stream_len % sector_len)
+                    % sector_len;
+                let stale = stale.min(new_stream_len - old_stream_len);
+                let mut chain =
+                    minialloc.open_chain(old_start_sector, SectorInit::Zero)?;
+                chain.seek(SeekFrom::Start(old_stream_len))?;
+                write_zeros(&mut chain, stale)?;
+            }
             old_start_sector
         }
     };
